@@ -2,7 +2,7 @@
 from .. import core, extract
 from ..core import Suite
 
-LEAN_TARGETS = ['Uds.Props.C11']
+LEAN_TARGETS = ['Uds.Props.C11', 'Uds.Tie.Groups']
 ASSUMPTIONS = [
     'domain = the client methods whose docstring lists tolerate_zero_padding under ":Effective configuration:" (extracted on every run) plus read_memory_by_address',
     'data identifier 0x0000 is not configured (otherwise two zero bytes are a genuine identifier and the padding is ambiguous)',
@@ -16,7 +16,8 @@ ZERO_REC = {'rec4': '0:0:0:-:-:-:-', 'rec6': '0:0:0:0:-:-:-', 'wwh': '0:0:0:-:-:
 
 
 def generate(ctx):
-    pass
+    from .. import extract
+    extract.generate(['Groups'])
 
 
 def documented_methods():
